@@ -11,6 +11,9 @@ Decided (FACTS must-analysis, dominance of gates, structural gate contents):
  UNIT/REAL-RET    random_attitudes, from_rpy, from_DCM, rotate_by, average return unit, real quaternions.
 Not decided: where exactly the isclose/allclose tolerances put the acceptance boundary of SO(3) (NumPy defaults
 1e-8 + 1e-5 relative lie between the 1e-12 accepted and 1e-4 rejected distances the property names).
+Added after the seeding rounds (DESIGN.md 6.6-6.8):
+ BUFFER-LAYOUT / SHADOW-INIT / REAL-GATE  the buffer handed to ndarray.__new__ is C-contiguous float64 and is what the shadow attribute is bound to; the shared
+            validator admits real dtypes only.
 """
 import ast
 from sa.facts import Facts
